@@ -978,5 +978,50 @@ theorem refines (g : Geo c NG) (P : Req × ω → Prop) (PS : Req × ω → Prop
 
 end Over
 
+/-! ### power-up state -/
+
+theorem T_replicate (n l : Nat) : T (List.replicate n (0, false)) l = (0, false) := by
+  unfold T
+  by_cases h : l < n <;> simp [List.getD_eq_getElem?_getD, List.getElem?_replicate, h]
+
+theorem zeros_getD (n p : Nat) : (List.replicate n (0 : Byte)).getD p 0 = 0 := by
+  by_cases h : p < n <;> simp [List.getD_eq_getElem?_getD, List.getElem?_replicate, h]
+
+/-- The power-up state (tags 0/clean, data 0) is coherent iff the backing memory is 0 on the tag-0 lines —
+    the cache has no valid bit. -/
+theorem inv_init {ω τ : Type} (sl : Slave ω τ) (InvS : τ → Option Req → Mem → Prop) (NG : Nat) (g : Geo c NG)
+    (M0 : Mem) (hS : InvS sl.init none M0) (hzero : ∀ x, x < 2 ^ c.linebits * LB c → M0 x = 0) :
+    Inv c InvS NG ((cache c).over sl).init none M0 := by
+  have hfs : ((cache c).init).fsm = .idle := rfl
+  refine Inv.mk_idle (s := (cache c).init) (t := sl.init) hfs ?_ hS ?_ ?_
+  · refine ⟨by simp [cache, Cache.init, nlines], by simp [cache, Cache.init, nlines], ?_⟩
+    intro l hl
+    show l + 2 ^ c.linebits * (T (List.replicate (nlines c) (0, false)) l).1 < NG
+    rw [T_replicate]; simp only [Nat.mul_zero, Nat.add_zero]
+    exact Nat.lt_of_lt_of_le hl g.lines
+  · funext x
+    show M0 x = absMem c (List.replicate (nlines c * lineBytes c) 0) (List.replicate (nlines c) (0, false)) M0 x
+    unfold absMem
+    rw [T_replicate, zeros_getD]
+    simp only
+    by_cases h : 0 = x / LB c / 2 ^ c.linebits
+    · rw [if_pos h]
+      apply hzero
+      have h1 : x / LB c < 2 ^ c.linebits := by
+        rcases Nat.lt_or_ge (x / LB c) (2 ^ c.linebits) with h2 | h2
+        · exact h2
+        · have := Nat.div_pos h2 (Nat.two_pow_pos _); omega
+      exact (Nat.div_lt_iff_lt_mul g.LB_pos).mp h1
+    · rw [if_neg h]
+  · intro l hl _ j hj
+    show (List.replicate (nlines c * lineBytes c) (0 : Byte)).getD _ 0 =
+      M0 ((l + 2 ^ c.linebits * (T (List.replicate (nlines c) (0, false)) l).1) * LB c + j)
+    rw [zeros_getD, T_replicate]
+    simp only [Nat.mul_zero, Nat.add_zero]
+    symm; apply hzero
+    calc l * LB c + j < l * LB c + LB c := by omega
+      _ = (l + 1) * LB c := by ring
+      _ ≤ 2 ^ c.linebits * LB c := Nat.mul_le_mul_right _ hl
+
 end Cache
 end Litex.WbMem
